@@ -13,7 +13,7 @@ from props._repair import generated_graph
 ID = "C19"
 LEVEL = "exploration"
 TECHNIQUE = ("history recorder + offline checker over sequences of real remove_nasty_arc calls: per call the pre/post accessor diff "
-             "(with an array write log), the library's own score on a copy of the pre-call latter map, and equality of the two "
+             "(with an array write log), the library's own score on a copy of the pre-call latter map, that score against an independent set-based scorer, and equality of the two "
              "views are checked; a sys.monitoring line probe counts the 'vertex lost its last arc' site")
 LEVEL_TEXT = ("Held on every returning call of every removal history of this run (generated graphs of order 2..3, order 4 with "
               "bounded history length in the quick tier; 4 insertion/deletion flag combinations; histories run until the first "
@@ -27,7 +27,7 @@ RULE = ("History: G = generated graph (k = 2..4, t = 1..3), views (accessor, lat
         "entry; accessor_to_latter_map(accessor) == latter map (keys/values as ints); score matrix has the accessor's shape and is "
         "positive only on existing arcs. Non-trivial (per call): the pre-call graph has at least two different positive scores, so 'the maximum' is a real choice; "
         "distinct = hash of (pre-call graph, flags). Histories of >= 5 calls in which a vertex lost its last arc have a floor."
-        ' Also: hand-built latter maps with follower lists in arbitrary order, Fortran-ordered and strided accessors; all flags passed positionally in the documented order.')
+        ' Also: the score matrix equals an independent set-based computation of the documented breadth-first definition; hand-built latter maps with follower lists in arbitrary order, Fortran-ordered and strided accessors; all flags passed positionally in the documented order.')
 
 
 def setup(ctx):
@@ -67,6 +67,43 @@ def generate(ctx):
 def _norm(lm):
     """The graph a latter map describes: follower *sets* per vertex (list order carries no meaning)."""
     return {int(a): sorted(int(x) for x in b) for a, b in lm.items()}
+
+
+def ref_scores(lm, k, ins, dele):
+    """The intersection score by its documented definition (breadth-first leaf sets of depth k - 1, sizes of pairwise
+    unions), computed with Python sets only - nothing from dsw."""
+    n = 4 ** k
+    out = np.zeros((n, 4), dtype=int)
+    memo = {}
+
+    def leaves(v):
+        got = memo.get(v)
+        if got is None:
+            level = {v}
+            for _ in range(k - 1):
+                nxt = set()
+                for u in level:
+                    nxt.update(lm.get(u, ()))
+                level = nxt
+            got = memo[v] = frozenset(level)
+        return got
+
+    for cur, followers in lm.items():
+        branches = [leaves(w) for w in followers]
+        for a in range(len(followers)):
+            for b in range(a + 1, len(followers)):
+                sc = len(branches[a] | branches[b])
+                out[cur, followers[a] % 4] += sc
+                out[cur, followers[b] % 4] += sc
+        if ins:
+            for a, w in enumerate(followers):
+                for x in lm.get(w, ()):
+                    out[cur, w % 4] += len(branches[a] | leaves(x))
+        if dele:
+            own = leaves(cur)
+            for a, w in enumerate(followers):
+                out[cur, w % 4] += len(branches[a] | own)
+    return out
 
 
 def _step(ctx, dsw, k, acc, lm, ins, dele, steps, where):
@@ -114,6 +151,15 @@ def _step(ctx, dsw, k, acc, lm, ins, dele, steps, where):
                     ctx.fail("score-shape", "calculate_intersection_score has shape %s, accessor %s; %s" % (scores.shape, pre_acc.shape, where), "step", sub)
                 else:
                     meaningful = len(set(scores[scores > 0].tolist())) >= 2
+                    ref = ref_scores({int(a): [int(x) for x in b] for a, b in pre_lm.items()}, k, ins, dele)
+                    ctx.mon("score matrices compared with the set-based reference")
+                    if not np.array_equal(ref, scores):
+                        w = np.argwhere(ref != scores)[0].tolist()
+                        ctx.fail("score-differs-from-definition", "calculate_intersection_score gives %d at %s, the breadth-first leaf-set definition gives %d; %s" % (
+                            scores[tuple(w)], w, ref[tuple(w)], where), "step", sub)
+                    elif ref[u, j] != ref.max():
+                        ctx.fail("removed-arc-not-maximal", "removed arc %d -> %d has reference score %d, maximum is %d; %s" % (
+                            u, pre_acc[u, j], ref[u, j], ref.max(), where), "step", sub)
                     if ((scores > 0) & (pre_acc < 0)).any():
                         w = np.argwhere((scores > 0) & (pre_acc < 0))[0].tolist()
                         ctx.fail("score-on-missing-arc", "positive score at %s where no arc exists; %s" % (w, where), "step", sub)
